@@ -474,8 +474,16 @@ func wireParseScript(c *Case) map[string]any {
 	vars := m.GetVariables()
 	ctx := vm.CreateContext(vars)
 	ctx.SetVariableValue(vars[0], data.NewStringValue(string(b)))
-	// SetVariableValue clones arrays; the options array is bound as is
-	ctx.SetVariableValue(vars[1], opts)
+	// a case without hints calls Protowire::parse($data) with no second argument, or with an empty
+	// array when extra.empty_opts is set: what such a call returns must not depend on earlier calls
+	if len(c.Msg) == 0 && len(c.Packed) == 0 && c.Max == 0 {
+		if c.Extra["empty_opts"] != "" {
+			ctx.SetVariableValue(vars[1], &data.ArrayValue{})
+		}
+	} else {
+		// SetVariableValue clones arrays; the options array is bound as is
+		ctx.SetVariableValue(vars[1], opts)
+	}
 	r, ctl := m.Call(ctx)
 	if ctl != nil {
 		return map[string]any{"throw": true}
